@@ -39,6 +39,7 @@ def tryRun : List TStep → Sess → Except Sess Sess
     match createDag (toProject s.tasks) {} with
     | .error _ => .error s
     | .ok (g, _) => tryRun r { s with g := g }
+  | .renewSkipMarks :: r, s => tryRun r s     -- `skip` marks below tasks with outcome SKIP: none in M7
   | .setScheduler :: r, s =>
     match Sorter.fromDagAndSorter s.g isTaskV prio0 s.so with
     | .error _ => .error s
@@ -94,6 +95,7 @@ def genRun (Y : YieldFn) (tk : PTask) : List GStep → Sess → List PTask → S
   | .call :: r, s, _ => if tk.fails then (invoke s tk, true, false) else genRun Y tk r (invoke s tk) (Y tk.id (received tk))
   | .parseDefined raises :: r, s, k => if k.isEmpty && raises then (s, true, false) else genRun Y tk r s k
   | .collectEach :: r, s, k => genRun Y tk r s k
+  | .raiseOnCollectFail :: r, s, k => if k.any (·.uncollectable) then (s, true, false) else genRun Y tk r s k
   | .extendTasks :: r, s, k => genRun Y tk r { s with tasks := s.tasks ++ k } k
   | .modifyTasks :: r, s, k => genRun Y tk r s k
   | .recreate c :: r, s, k => genRun Y tk r (if condGen s tk.id c then recreateGen s tk.id else s) k
